@@ -68,6 +68,10 @@ def handle (s : Sexp) : String :=
   -- mutual exclusion of a synchronized set across a second Synchronize / a refused WithLock: the
   -- mutex is installed once (`atomic.Set` succeeds only on the empty slot), so a later operation
   -- waits for the one in progress
+  | .list (.atom "setexcl" :: .list [.atom "variant", .atom "equal"] :: _) =>
+    -- {1,2} against {1,3} with a concurrent Delete(2): false in either order (Equal holds the receiver's
+    -- mutex from its first test to its answer)
+    "excl equal-true=0"
   | .list (.atom "setexcl" :: _) => "excl overlapped=0"
   | .list (.atom "set" :: ops) =>
     let rec go (sets : Array SetSt) (ops : List Sexp) (acc : List String) : List String :=
